@@ -138,13 +138,17 @@ class PlanJoinTablesQuery:
 
         # try to use default namespace
         integration = self.planner.default_namespace
-        if len(table.parts) > 0:
+        is_cte = self.planner.get_cte_result(table) is not None
+        if is_cte:
+            # reference to a common table expression: is not in a database
+            integration = None
+        elif len(table.parts) > 0:
             if table.parts[0].lower() in self.planner.databases:
                 integration = table.parts.pop(0).lower()
             else:
                 integration = self.planner.default_namespace
 
-        if integration is None and not hasattr(table, 'sub_select'):
+        if integration is None and not is_cte and not hasattr(table, 'sub_select'):
             raise PlanningException(f'Integration not found for: {table}')
 
         sub_select = getattr(table, 'sub_select', None)
@@ -171,7 +175,8 @@ class PlanJoinTablesQuery:
             table_info.index = len(self.tables)
             self.tables.append(table_info)
 
-            table_info.predictor_info = self.planner.get_predictor(node)
+            if table_info.integration is not None:
+                table_info.predictor_info = self.planner.get_predictor(node)
 
             if condition is not None:
                 table_info.join_condition = condition
@@ -470,7 +475,8 @@ class PlanJoinTablesQuery:
 
     def process_table(self, item, query_in):
         table = copy.deepcopy(item.table)
-        table.parts.insert(0, item.integration)
+        if item.integration is not None:
+            table.parts.insert(0, item.integration)
         query2 = Select(from_table=table, targets=[Star()])
         # parts = tuple(map(str.lower, table_name.parts))
         conditions = self.get_table_filters(item)
